@@ -81,7 +81,8 @@ pub struct Case {
 
 const ROOT: &str = "run";
 // (two files carry the root's own base name in other directories)
-const PATHS: [&str; 9] = ["run/main.ds", "run/a/x.ds", "run/a/b/y.ds", "run/lib z/w.ds", "run/a/b/c/deep.ds", "run/q.ds", "run/a/n\u{e9}.ds", "run/a/main.ds", "run/lib z/main.ds"];
+// (and a directory whose name looks like a drive letter)
+const PATHS: [&str; 11] = ["run/main.ds", "run/a/x.ds", "run/a/b/y.ds", "run/lib z/w.ds", "run/a/b/c/deep.ds", "run/q.ds", "run/a/n\u{e9}.ds", "run/a/main.ds", "run/lib z/main.ds", "run/m:/util.ds", "run/a/c:/t.ds"];
 
 fn abs_base(env: &WorkerEnv) -> PathBuf {
     if env.chrooted { PathBuf::from("/") } else { env.jail_root.clone() }
